@@ -15,6 +15,9 @@ def main : IO Unit := do
   for c in lockedCalls do
     if !lockedCallOk c then
       IO.println s!"LOCKED\t{c.1}\t{c.2.2.2.2}"
+  for a in wgAdds do
+    if !wgAddOk a then
+      IO.println s!"WGADD\t{a.1}\t{a.2.1}\t{a.2.2.2.2.2}"
   for (f, c) in tokenTakes do
     IO.println s!"TOKEN\t{f}\t{c}"
   for f in lockUnreached do
